@@ -174,6 +174,9 @@ def gen_cases(run):
             "2562047788015216", "153722867280912930", "153722867280912931", "9223372036854775807", "9223372036854775808",
             "18446744073709551615", "18446744073709551616", "18446744073709551617", "99999999999999999",
             "340282366920938463463374607431768211456", "9223372036854775807.999999999", "9223372036854775807999"]
+    # fractions around the 15-digit limit, with and without trailing zeros (how many digits count is the written length)
+    for ln in (14, 15, 16, 17, 20, 40):
+        nums += ["1.5" + "0" * (ln - 1), "0." + "0" * ln, "2." + "0" * (ln - 1) + "1", "3." + "".join(str((7 * i + 3) % 10) for i in range(ln))]
     for unit in ("d", "h", "m", "s", "ms"):
         for num in nums:
             for pre in (("T#", "t#", "TIME#", "time#") if num in ("1", "1.5") else ("T#",)):
@@ -203,7 +206,8 @@ def gen_cases(run):
     # ---- time of day, date and time ---------------------------------------------------------
     hs = [0, 12, 23, 24, 255, 256, 280]
     mins = [0, 30, 59, 60, 255, 256, 316]
-    secs = ["00", "01", "59", "60", "255", "256", "316", "01.5", "59.999999", "00.000001", "00.0000000001", "01.1234567890123456", "18446744073709551616"]
+    secs = ["00", "01", "59", "60", "255", "256", "316", "01.5", "59.999999", "00.000001", "00.0000000001", "01.1234567890123456", "18446744073709551616",
+            "15.250000000000000", "15.2500000000000000", "15.25000000000000000", "00.0000000000000000"]
     for h in hs:
         for mi in mins:
             for s in secs:
